@@ -356,69 +356,40 @@ Proof.
   - intros H Hd. simpl. now rewrite (IH H2 H Hd).
 Qed.
 
-Lemma evict_instances_sweep now ty ptrs : forall srv txt srv' txt' ex,
-  NoDup (map fst srv) -> NoDup (map fst txt) ->
-  evict_instances now ty ptrs srv txt = (srv', txt', ex) ->
-  sweep now srv' = sweep now srv /\ sweep now txt' = sweep now txt
-  /\ NoDup (map fst srv') /\ NoDup (map fst txt').
+Lemma evict_instances_sweep now ty ptrs se : forall txt txt' ex,
+  evict_instances now ty ptrs se txt = (txt', ex) -> sweep now txt' = sweep now txt.
 Proof.
-  induction ptrs as [|p rest IH]; intros srv txt srv' txt' ex NDs NDt; simpl.
-  - intros H. inversion H; subst. auto.
+  induction ptrs as [|p rest IH]; intros txt txt' ex; simpl.
+  - intros H. inversion H; subst. reflexivity.
   - set (inst := alias_of (e_rr p)).
-    destruct (bm_get inst srv) as [sb|] eqn:Es.
-    + destruct (live_only now sb) as [|x xs] eqn:El.
-      * destruct (bm_get inst txt) as [tb|] eqn:Et.
-        -- destruct (evict_instances now ty rest (bm_remove inst srv) (bm_set inst (live_only now tb) txt))
-             as [[s2 t2] e2] eqn:E2. intros H. inversion H; subst.
-           destruct (IH _ _ _ _ _ (bm_remove_nodup inst srv NDs) (bm_set_nodup inst _ txt NDt) E2) as (A & B & C & D).
-           rewrite A, B, (sweep_remove_dead now inst sb srv NDs Es El), (sweep_set_live now inst tb txt Et). auto.
-        -- destruct (evict_instances now ty rest (bm_remove inst srv) txt) as [[s2 t2] e2] eqn:E2.
-           intros H. inversion H; subst.
-           destruct (IH _ _ _ _ _ (bm_remove_nodup inst srv NDs) NDt E2) as (A & B & C & D).
-           rewrite A, B, (sweep_remove_dead now inst sb srv NDs Es El). auto.
-      * rewrite <- El. destruct (bm_get inst txt) as [tb|] eqn:Et.
-        -- destruct (evict_instances now ty rest (bm_set inst (live_only now sb) srv) (bm_set inst (live_only now tb) txt))
-             as [[s2 t2] e2] eqn:E2. intros H. inversion H; subst.
-           destruct (IH _ _ _ _ _ (bm_set_nodup inst _ srv NDs) (bm_set_nodup inst _ txt NDt) E2) as (A & B & C & D).
-           rewrite A, B, (sweep_set_live now inst sb srv Es), (sweep_set_live now inst tb txt Et). auto.
-        -- destruct (evict_instances now ty rest (bm_set inst (live_only now sb) srv) txt) as [[s2 t2] e2] eqn:E2.
-           intros H. inversion H; subst.
-           destruct (IH _ _ _ _ _ (bm_set_nodup inst _ srv NDs) NDt E2) as (A & B & C & D).
-           rewrite A, B, (sweep_set_live now inst sb srv Es). auto.
-    + destruct (bm_get inst txt) as [tb|] eqn:Et.
-      * destruct (evict_instances now ty rest srv (bm_set inst (live_only now tb) txt)) as [[s2 t2] e2] eqn:E2.
-        intros H. inversion H; subst.
-        destruct (IH _ _ _ _ _ NDs (bm_set_nodup inst _ txt NDt) E2) as (A & B & C & D).
-        rewrite A, B, (sweep_set_live now inst tb txt Et). auto.
-      * destruct (evict_instances now ty rest srv txt) as [[s2 t2] e2] eqn:E2.
-        intros H. inversion H; subst. apply (IH _ _ _ _ _ NDs NDt E2).
+    destruct (bm_get inst txt) as [tb|] eqn:Et.
+    + destruct (evict_instances now ty rest se (bm_set inst (live_only now tb) txt)) as [t2 e2] eqn:E2.
+      intros H. inversion H; subst. rewrite (IH _ _ _ E2). now apply sweep_set_live.
+    + destruct (evict_instances now ty rest se txt) as [t2 e2] eqn:E2.
+      intros H. inversion H; subst. apply (IH _ _ _ E2).
 Qed.
 
-Lemma evict_types_sweep now : forall ptr srv txt ptr' srv' txt' ex,
-  NoDup (map fst srv) -> NoDup (map fst txt) ->
-  evict_types now ptr srv txt = (ptr', srv', txt', ex) ->
-  ptr' = map (fun kb => (fst kb, live_only now (snd kb))) ptr
-  /\ sweep now srv' = sweep now srv /\ sweep now txt' = sweep now txt.
+Lemma evict_types_sweep now se : forall ptr txt ptr' txt' ex,
+  evict_types now ptr se txt = (ptr', txt', ex) ->
+  ptr' = map (fun kb => (fst kb, live_only now (snd kb))) ptr /\ sweep now txt' = sweep now txt.
 Proof.
-  induction ptr as [|[ty ptrs] rest IH]; intros srv txt ptr' srv' txt' ex NDs NDt; simpl.
+  induction ptr as [|[ty ptrs] rest IH]; intros txt ptr' txt' ex; simpl.
   - intros H. inversion H; subst. auto.
-  - destruct (evict_instances now ty ptrs srv txt) as [[srv1 txt1] ex1] eqn:E1.
-    destruct (evict_types now rest srv1 txt1) as [[[ptr2 srv2] txt2] ex2] eqn:E2.
+  - destruct (evict_instances now ty ptrs se txt) as [txt1 ex1] eqn:E1.
+    destruct (evict_types now rest se txt1) as [[ptr2 txt2] ex2] eqn:E2.
     intros H. inversion H; subst.
-    destruct (evict_instances_sweep _ _ _ _ _ _ _ _ NDs NDt E1) as (A & B & C & D).
-    destruct (IH _ _ _ _ _ _ C D E2) as (P & S & T). subst ptr2. rewrite S, T, A, B. auto.
+    destruct (IH _ _ _ _ E2) as (P & T). subst ptr2. rewrite T, (evict_instances_sweep _ _ _ _ _ _ _ E1). auto.
 Qed.
 
 (* evict_expired_services: the cache afterwards, exactly *)
 Theorem evict_services_cache c now :
-  NoDup (map fst (c_srv c)) -> NoDup (map fst (c_txt c)) ->
   fst (evict_services c now) =
   mkCache (map (fun kb => (fst kb, live_only now (snd kb))) (c_ptr c))
           (sweep now (c_srv c)) (sweep now (c_txt c)) (c_addr c) (sweep now (c_nsec c)) (c_sub c).
 Proof.
-  intros NDs NDt. unfold evict_services.
-  destruct (evict_types now (c_ptr c) (c_srv c) (c_txt c)) as [[[ptr1 srv1] txt1] ex] eqn:E.
-  destruct (evict_types_sweep _ _ _ _ _ _ _ _ NDs NDt E) as (P & S & T). simpl. now rewrite P, S, T.
+  unfold evict_services.
+  destruct (evict_types now (c_ptr c) (srv_expired_of now (c_srv c)) (c_txt c)) as [[ptr1 txt1] ex] eqn:E.
+  destruct (evict_types_sweep _ _ _ _ _ _ _ E) as (P & T). simpl. now rewrite P, T.
 Qed.
 
 (* evict_expired_addr: the cache afterwards, exactly (by definition) *)
@@ -428,67 +399,121 @@ Theorem evict_addr_cache c now :
 Proof. reflexivity. Qed.
 
 (* every expired PTR is reported under its ty_domain *)
-Lemma evict_types_reports_ptr now : forall ptr srv txt ty ptrs p,
+Lemma evict_types_reports_ptr now se : forall ptr txt ty ptrs p,
   In (ty, ptrs) ptr -> In p ptrs -> is_expired p now = true ->
-  In (ty, alias_of (e_rr p)) (snd (evict_types now ptr srv txt)).
+  In (ty, alias_of (e_rr p)) (snd (evict_types now ptr se txt)).
 Proof.
-  induction ptr as [|[ty0 ptrs0] rest IH]; intros srv txt ty ptrs p Hin Hp He; simpl; [destruct Hin|].
-  destruct (evict_instances now ty0 ptrs0 srv txt) as [[srv1 txt1] ex1] eqn:E1.
-  specialize (IH srv1 txt1 ty ptrs p).
-  destruct (evict_types now rest srv1 txt1) as [[[ptr2 srv2] txt2] ex2] eqn:E2. simpl in *.
+  induction ptr as [|[ty0 ptrs0] rest IH]; intros txt ty ptrs p Hin Hp He; simpl; [destruct Hin|].
+  destruct (evict_instances now ty0 ptrs0 se txt) as [txt1 ex1] eqn:E1.
+  specialize (IH txt1 ty ptrs p).
+  destruct (evict_types now rest se txt1) as [[ptr2 txt2] ex2] eqn:E2. simpl in *.
   destruct Hin as [Hin|Hin].
   - inversion Hin; subst. apply in_app_iff. right. apply in_app_iff. left.
     apply in_map_iff. exists p. split; [reflexivity|]. apply filter_In. auto.
   - apply in_app_iff. right. apply in_app_iff. right. auto.
 Qed.
 
-(* an instance is reported only if a PTR pointing to it expired or none of its SRV records is
-   unexpired at that moment *)
-Definition srv_all_expired (srv : bmap) (inst : bytes) (now : N) : Prop :=
-  exists sb, bm_get inst srv = Some sb /\ live_only now sb = [].
-
-Lemma evict_instances_sound now ty ptrs : forall srv txt t i,
-  In (t, i) (snd (evict_instances now ty ptrs srv txt)) ->
-  t = ty /\ exists p, In p ptrs /\ alias_of (e_rr p) = i.
+(* the instances left without an unexpired SRV record *)
+Lemma srv_expired_of_spec now srv i :
+  mem i (srv_expired_of now srv) = true <-> exists b, In (i, b) srv /\ live_only now b = [].
 Proof.
-  induction ptrs as [|p rest IH]; intros srv txt t i; simpl; [tauto|].
-  set (inst := alias_of (e_rr p)).
-  destruct (match bm_get inst srv with
-            | Some sb => match live_only now sb with
-                         | [] => (bm_remove inst srv, [(ty, inst)])
-                         | e :: l => (bm_set inst (e :: l) srv, [])
-                         end
-            | None => (srv, [])
-            end) as [srv1 ex1] eqn:E1.
-  match goal with |- context [evict_instances now ty rest srv1 ?t1] =>
-    destruct (evict_instances now ty rest srv1 t1) as [[srv2 txt2] ex2] eqn:E2 end.
-  simpl. intros H. apply in_app_iff in H as [H|H].
-  - assert (ex1 = [] \/ ex1 = [(ty, inst)]).
-    { destruct (bm_get inst srv); [|inversion E1; auto]. destruct (live_only now b); inversion E1; auto. }
-    destruct H0 as [-> | ->]; [destruct H|]. destruct H as [H|[]]. inversion H; subst.
-    split; [reflexivity|]. exists p. auto.
-  - match type of E2 with evict_instances now ty rest srv1 ?t1 = _ => specialize (IH srv1 t1 t i) end.
-    rewrite E2 in IH. simpl in IH. destruct (IH H) as [A [q [B C]]]. split; [assumption|]. exists q. auto.
+  unfold srv_expired_of. rewrite mem_In, in_map_iff. split.
+  - intros [[k b] [H1 H2]]. simpl in H1. subst. apply filter_In in H2 as [H2 H3]. simpl in H3.
+    exists b. split; [assumption|]. destruct (live_only now b); [reflexivity|discriminate].
+  - intros [b [H1 H2]]. exists (i, b). split; [reflexivity|]. apply filter_In. split; [assumption|].
+    simpl. now rewrite H2.
+Qed.
+
+Lemma evict_instances_reports_srv now ty se : forall ptrs txt p,
+  In p ptrs -> mem (alias_of (e_rr p)) se = true ->
+  In (ty, alias_of (e_rr p)) (snd (evict_instances now ty ptrs se txt)).
+Proof.
+  induction ptrs as [|q rest IH]; intros txt p Hin Hm; simpl; [destruct Hin|].
+  match goal with |- context [evict_instances now ty rest se ?t1] =>
+    specialize (IH t1 p); destruct (evict_instances now ty rest se t1) as [t2 e2] end.
+  simpl in *. destruct Hin as [->|Hin].
+  - rewrite Hm. now left.
+  - apply in_app_iff. right. auto.
+Qed.
+
+Lemma evict_instances_sound now ty se : forall ptrs txt t i,
+  In (t, i) (snd (evict_instances now ty ptrs se txt)) ->
+  t = ty /\ mem i se = true /\ exists p, In p ptrs /\ alias_of (e_rr p) = i.
+Proof.
+  induction ptrs as [|p rest IH]; intros txt t i; simpl; [tauto|].
+  match goal with |- context [evict_instances now ty rest se ?t1] =>
+    specialize (IH t1 t i); destruct (evict_instances now ty rest se t1) as [t2 e2] end.
+  simpl in *. intros H. apply in_app_iff in H as [H|H].
+  - destruct (mem (alias_of (e_rr p)) se) eqn:Em; [|destruct H]. destruct H as [H|[]]. inversion H; subst.
+    repeat split; auto. exists p. auto.
+  - destruct (IH H) as (A & B & q & C & D). repeat split; auto. exists q. auto.
+Qed.
+
+(* since the repair of the two-PTR-names defect: EVERY ty_domain with a PTR to an instance
+   whose SRV records all expired reports it *)
+Theorem evict_services_reports_srv_expiry c now ty ptrs p sb :
+  In (ty, ptrs) (c_ptr c) -> In p ptrs ->
+  In (alias_of (e_rr p), sb) (c_srv c) -> live_only now sb = [] ->
+  In (ty, alias_of (e_rr p)) (snd (evict_services c now)).
+Proof.
+  intros H1 H2 H3 H4. unfold evict_services.
+  assert (Hm : mem (alias_of (e_rr p)) (srv_expired_of now (c_srv c)) = true)
+    by (apply srv_expired_of_spec; eauto).
+  set (se := srv_expired_of now (c_srv c)) in *. clearbody se.
+  assert (G : forall ptr txt, In (ty, ptrs) ptr -> In (ty, alias_of (e_rr p)) (snd (evict_types now ptr se txt))).
+  { induction ptr as [|[ty0 ptrs0] rest IH]; intros txt Hin; simpl; [destruct Hin|].
+    pose proof (evict_instances_reports_srv now ty0 se ptrs0 txt p) as Hi.
+    destruct (evict_instances now ty0 ptrs0 se txt) as [txt1 ex1] eqn:E1.
+    specialize (IH txt1). destruct (evict_types now rest se txt1) as [[ptr2 txt2] ex2]. simpl in *.
+    destruct Hin as [Hin|Hin].
+    - inversion Hin; subst. apply in_app_iff. left. auto.
+    - apply in_app_iff. right. apply in_app_iff. right. auto. }
+  specialize (G (c_ptr c) (c_txt c) H1).
+  destruct (evict_types now (c_ptr c) se (c_txt c)) as [[ptr1 txt1] ex]. exact G.
+Qed.
+
+Theorem evict_services_reports_expired_ptr c now ty ptrs p :
+  In (ty, ptrs) (c_ptr c) -> In p ptrs -> is_expired p now = true ->
+  In (ty, alias_of (e_rr p)) (snd (evict_services c now)).
+Proof.
+  intros H1 H2 H3. unfold evict_services.
+  pose proof (evict_types_reports_ptr now (srv_expired_of now (c_srv c)) (c_ptr c) (c_txt c) ty ptrs p H1 H2 H3) as H.
+  destruct (evict_types now (c_ptr c) (srv_expired_of now (c_srv c)) (c_txt c)) as [[ptr1 txt1] ex]. exact H.
+Qed.
+
+(* removed_only_when_true, eviction path: (ty, instance) is reported only if some PTR record
+   ty -> instance exists and either that PTR expired or the instance has an SRV bucket without
+   any unexpired record *)
+Theorem evict_reports_only_when_true c now t i :
+  In (t, i) (snd (evict_services c now)) ->
+  exists ptrs p, In (t, ptrs) (c_ptr c) /\ In p ptrs /\ alias_of (e_rr p) = i
+    /\ (is_expired p now = true \/ exists sb, In (i, sb) (c_srv c) /\ live_only now sb = []).
+Proof.
+  unfold evict_services. set (se := srv_expired_of now (c_srv c)).
+  assert (G : forall ptr txt, In (t, i) (snd (evict_types now ptr se txt)) ->
+            exists ptrs p, In (t, ptrs) ptr /\ In p ptrs /\ alias_of (e_rr p) = i
+              /\ (is_expired p now = true \/ mem i se = true)).
+  { induction ptr as [|[ty ptrs] rest IH]; intros txt; simpl; [tauto|].
+    pose proof (evict_instances_sound now ty se ptrs txt t i) as Hs.
+    destruct (evict_instances now ty ptrs se txt) as [txt1 ex1] eqn:E1.
+    specialize (IH txt1). destruct (evict_types now rest se txt1) as [[ptr2 txt2] ex2]. simpl in *.
+    intros H. apply in_app_iff in H as [H|H].
+    - destruct (Hs H) as (A & B & p & C & D). subst t. exists ptrs, p. auto.
+    - apply in_app_iff in H as [H|H].
+      + apply in_map_iff in H as [p [Hp1 Hp2]]. inversion Hp1; subst. apply filter_In in Hp2 as [Hp2 Hp3].
+        exists ptrs, p. auto.
+      + destruct (IH H) as (ps & p & A & B & C & D). exists ps, p. auto. }
+  specialize (G (c_ptr c) (c_txt c)).
+  destruct (evict_types now (c_ptr c) se (c_txt c)) as [[ptr1 txt1] ex]. simpl. intros H.
+  destruct (G H) as (ps & p & A & B & C & [D|D]); exists ps, p; repeat split; auto.
+  right. now apply srv_expired_of_spec.
 Qed.
 
 Theorem evict_reported_has_ptr c now t i :
   In (t, i) (snd (evict_services c now)) ->
   exists ptrs p, In (t, ptrs) (c_ptr c) /\ In p ptrs /\ alias_of (e_rr p) = i.
 Proof.
-  unfold evict_services.
-  destruct (evict_types now (c_ptr c) (c_srv c) (c_txt c)) as [[[ptr1 srv1] txt1] ex] eqn:E. simpl.
-  revert E. generalize (c_srv c) (c_txt c) ptr1 srv1 txt1 ex. generalize (c_ptr c).
-  induction b as [|[ty ptrs] rest IH]; intros srv txt p1 s1 t1 ex0; simpl.
-  - intros H. inversion H; subst. intros [].
-  - destruct (evict_instances now ty ptrs srv txt) as [[srv2 txt2] ex1] eqn:E1.
-    destruct (evict_types now rest srv2 txt2) as [[[ptr3 srv3] txt3] ex2] eqn:E2.
-    intros H. inversion H; subst. intros Hin. apply in_app_iff in Hin as [Hin|Hin].
-    + pose proof (evict_instances_sound now ty ptrs srv txt t i) as Hs. rewrite E1 in Hs. simpl in Hs.
-      destruct (Hs Hin) as [Ht [p [A B]]]. subst t. exists ptrs, p. auto.
-    + apply in_app_iff in Hin as [Hin|Hin].
-      * apply in_map_iff in Hin as [p [Hp1 Hp2]]. inversion Hp1; subst. apply filter_In in Hp2 as [Hp2 _].
-        exists ptrs, p. auto.
-      * destruct (IH _ _ _ _ _ _ E2 Hin) as [ps [p [A [B C]]]]. exists ps, p. auto.
+  intros H. destruct (evict_reports_only_when_true c now t i H) as (ps & p & A & B & C & _). eauto.
 Qed.
 
 (* ---- verify ------------------------------------------------------------------------------------------ *)
@@ -505,96 +530,3 @@ Lemma verify_questions c inst at_ sb :
   snd (service_verify_queries c inst at_) =
   (inst, TY_SRV) :: flat_map (fun s => [(srv_host s, TY_A); (srv_host s, TY_AAAA)]) sb.
 Proof. intros H. unfold service_verify_queries. now rewrite H. Qed.
-
-Theorem evict_services_reports_expired_ptr c now ty ptrs p :
-  In (ty, ptrs) (c_ptr c) -> In p ptrs -> is_expired p now = true ->
-  In (ty, alias_of (e_rr p)) (snd (evict_services c now)).
-Proof.
-  intros H1 H2 H3. unfold evict_services.
-  pose proof (evict_types_reports_ptr now (c_ptr c) (c_srv c) (c_txt c) ty ptrs p H1 H2 H3) as H.
-  destruct (evict_types now (c_ptr c) (c_srv c) (c_txt c)) as [[[ptr1 srv1] txt1] ex]. exact H.
-Qed.
-
-(* ---- the eviction reports an instance only when true ------------------------------------------------- *)
-
-Lemma bm_remove_get_other k k' m : beq k' k = false -> bm_get k' (bm_remove k m) = bm_get k' m.
-Proof.
-  intros Hne. induction m as [|[k0 b0] t IH]; simpl; [reflexivity|].
-  destruct (beq k k0) eqn:E; simpl.
-  - apply beq_eq in E. subst. now rewrite Hne.
-  - now rewrite IH.
-Qed.
-
-(* srv' is srv after some buckets were replaced by their unexpired part or dropped *)
-Definition srv_rel (now : N) (srv srv' : bmap) : Prop :=
-  forall i x, bm_get i srv' = Some x -> exists b0, bm_get i srv = Some b0 /\ live_only now x = live_only now b0.
-
-Lemma srv_rel_refl now srv : srv_rel now srv srv.
-Proof. intros i x H. exists x. auto. Qed.
-
-Lemma evict_instances_true now ty ptrs : forall srv0 srv txt t i,
-  srv_rel now srv0 srv ->
-  (In (t, i) (snd (evict_instances now ty ptrs srv txt)) ->
-   exists sb, bm_get i srv0 = Some sb /\ live_only now sb = [])
-  /\ srv_rel now srv0 (fst (fst (evict_instances now ty ptrs srv txt))).
-Proof.
-  induction ptrs as [|p rest IH]; intros srv0 srv txt t i Hrel; simpl; [split; [tauto|assumption]|].
-  set (inst := alias_of (e_rr p)).
-  destruct (bm_get inst srv) as [sb|] eqn:Es.
-  - destruct (Hrel inst sb Es) as [b0 [Hb0 Hl0]].
-    destruct (live_only now sb) as [|x xs] eqn:El.
-    + (* bucket dropped, instance reported *)
-      assert (Hrel1 : srv_rel now srv0 (bm_remove inst srv)).
-      { intros j y Hj. destruct (beq j inst) eqn:Ej.
-        - apply beq_eq in Ej. subst. rewrite bm_remove_get_same in Hj. discriminate.
-        - rewrite (bm_remove_get_other _ _ _ Ej) in Hj. auto. }
-      match goal with |- context [evict_instances now ty rest (bm_remove inst srv) ?t1] =>
-        destruct (IH srv0 (bm_remove inst srv) t1 t i Hrel1) as [A B];
-        destruct (evict_instances now ty rest (bm_remove inst srv) t1) as [[s2 t2] e2] end.
-      simpl in *. split; [|exact B]. intros [H|H]; [|auto].
-      inversion H; subst. exists b0. split; [assumption|]. now rewrite <- Hl0.
-    + rewrite <- El.
-      assert (Hrel1 : srv_rel now srv0 (bm_set inst (live_only now sb) srv)).
-      { intros j y Hj. destruct (beq j inst) eqn:Ej.
-        - apply beq_eq in Ej. subst. rewrite bm_set_get_same in Hj. inversion Hj; subst.
-          exists b0. split; [assumption|]. rewrite live_only_idem, El. exact Hl0.
-        - rewrite (bm_set_get_other _ _ _ _ Ej) in Hj. auto. }
-      match goal with |- context [evict_instances now ty rest (bm_set inst (live_only now sb) srv) ?t1] =>
-        destruct (IH srv0 (bm_set inst (live_only now sb) srv) t1 t i Hrel1) as [A B];
-        destruct (evict_instances now ty rest (bm_set inst (live_only now sb) srv) t1) as [[s2 t2] e2] end.
-      simpl in *. split; assumption.
-  - match goal with |- context [evict_instances now ty rest srv ?t1] =>
-      destruct (IH srv0 srv t1 t i Hrel) as [A B];
-      destruct (evict_instances now ty rest srv t1) as [[s2 t2] e2] end.
-    simpl in *. split; assumption.
-Qed.
-
-Lemma evict_types_true now : forall ptr srv0 srv txt t i,
-  srv_rel now srv0 srv ->
-  In (t, i) (snd (evict_types now ptr srv txt)) ->
-  (exists ptrs p, In (t, ptrs) ptr /\ In p ptrs /\ alias_of (e_rr p) = i /\ is_expired p now = true)
-  \/ (exists sb, bm_get i srv0 = Some sb /\ live_only now sb = []).
-Proof.
-  induction ptr as [|[ty ptrs] rest IH]; intros srv0 srv txt t i Hrel; simpl; [tauto|].
-  destruct (evict_instances_true now ty ptrs srv0 srv txt t i Hrel) as [A B].
-  destruct (evict_instances now ty ptrs srv txt) as [[srv1 txt1] ex1] eqn:E1. simpl in A, B.
-  specialize (IH srv0 srv1 txt1 t i B).
-  destruct (evict_types now rest srv1 txt1) as [[[ptr2 srv2] txt2] ex2]. simpl in *.
-  intros H. apply in_app_iff in H as [H|H]; [right; auto|].
-  apply in_app_iff in H as [H|H].
-  - apply in_map_iff in H as [p [Hp1 Hp2]]. inversion Hp1; subst. apply filter_In in Hp2 as [Hp2 Hp3].
-    left. exists ptrs, p. auto.
-  - destruct (IH H) as [[ps [p [C [D [E F]]]]]|C]; [left; exists ps, p; auto|right; auto].
-Qed.
-
-(* removed_only_when_true, eviction path: evict_expired_services reports (ty, instance) only if
-   a PTR record ty -> instance expired, or the instance has SRV records and none is unexpired *)
-Theorem evict_reports_only_when_true c now t i :
-  In (t, i) (snd (evict_services c now)) ->
-  (exists ptrs p, In (t, ptrs) (c_ptr c) /\ In p ptrs /\ alias_of (e_rr p) = i /\ is_expired p now = true)
-  \/ (exists sb, bm_get i (c_srv c) = Some sb /\ live_only now sb = []).
-Proof.
-  unfold evict_services.
-  pose proof (evict_types_true now (c_ptr c) (c_srv c) (c_srv c) (c_txt c) t i (srv_rel_refl now _)) as H.
-  destruct (evict_types now (c_ptr c) (c_srv c) (c_txt c)) as [[[ptr1 srv1] txt1] ex]. exact H.
-Qed.
